@@ -498,7 +498,7 @@ Proof.
     let s1 := mkst f (mks 0 wflag false) at1 lo in
     let '(sx, ox) := exec fuel read_header_prog s1 in
     ox = ONormal /\
-    let '(sy, oy) := exec fuel map_blocks_prog sx in
+    let '(sy, oy) := exec fuel map_blocks_prog (restore_locals sx lo) in
     let '(f', h') := map_blocks f hm in
     file sy = f' /\ (oy = ONormal \/ oy = OReturn VNone) /\
     lookup_env (attrs sy) "_toc" = Some (VToc (toc h')) /\ lookup_env (attrs sy) "_last" = Some (vopt_bytes (last h')) /\
@@ -509,8 +509,8 @@ Proof.
     pose proof (read_header_code fuel s1 h1 h2 b0 rest Hf L1 L2 L0 eq_refl) as RH.
     destruct (exec fuel read_header_prog s1) as [sx ox]. destruct RH as [R1 [R2 [R3 [R4 [R5 [R6 [R7 R8]]]]]]].
     split; [exact R1|].
-    assert (O : Obj sx hm h2 b0).
-    { constructor; cbn [toc last eof md hm].
+    assert (O : Obj (restore_locals sx lo) hm h2 b0).
+    { constructor; cbn [toc last eof md hm restore_locals attrs file strm].
       - rewrite R6 by discriminate. unfold s1, at1; cbn [attrs]. rewrite lookup_set_other by discriminate. exact At.
       - rewrite R6 by discriminate. unfold s1, at1; cbn [attrs]. rewrite lookup_set_other by discriminate. exact Al.
       - rewrite R6 by discriminate. unfold s1, at1; cbn [attrs]. rewrite lookup_set_other by discriminate. exact Ae.
@@ -519,9 +519,9 @@ Proof.
       - rewrite R2. unfold s1; cbn [file]. rewrite Hf. rewrite (mk_header_ok h1 h2 b0 L1 L2 L0 rest). rewrite len_mk_header by exact L1. lia.
       - exact Ain.
       - split; [exact R7|]. rewrite R8. unfold s1; cbn [strm s_wr]. exact Hw. }
-    assert (Hfuel' : (List.length (file sx) < fuel)%nat) by (rewrite R2; exact Hfuel).
-    pose proof (map_blocks_code fuel sx hm h2 b0 Hfuel' O) as MB.
-    destruct (exec fuel map_blocks_prog sx) as [sy oy]. rewrite R2 in MB. unfold s1 in MB; cbn [file] in MB.
+    assert (Hfuel' : (List.length (file (restore_locals sx lo)) < fuel)%nat) by (cbn [restore_locals file]; rewrite R2; exact Hfuel).
+    pose proof (map_blocks_code fuel (restore_locals sx lo) hm h2 b0 Hfuel' O) as MB.
+    destruct (exec fuel map_blocks_prog (restore_locals sx lo)) as [sy oy]. cbn [restore_locals file attrs strm] in MB. rewrite R2 in MB. unfold s1 in MB; cbn [file] in MB.
     destruct (map_blocks f hm) as [f' h'] eqn:Emb.
     destruct MB as [M1 [M2 [M3 [M4 [M5 [M6 [M7 [M8 [M9 M10]]]]]]]]].
     repeat split; try assumption.
@@ -548,21 +548,24 @@ Proof.
   destruct m; cbn [mode_str val_eqb String.eqb Ascii.eqb Bool.eqb truthy].
   - specialize (Main false eq_refl). cbn zeta in Main.
     destruct (exec fuel read_header_prog _) as [sx ox]. destruct Main as [Ox Main]. subst ox.
-    destruct (exec fuel map_blocks_prog sx) as [sy oy]. destruct (map_blocks f hm) as [f' h'].
+    destruct (exec fuel map_blocks_prog (restore_locals sx lo)) as [sy oy]. destruct (map_blocks f hm) as [f' h'].
     destruct Main as [M1 [M2 [M3 [M4 [M5 [M6 [M7 [M8 [M9 [M10 M11]]]]]]]]]].
     destruct M2 as [M2|M2]; subst oy; (split; [exact M1|]; split; [left; reflexivity|];
-      apply (Fin false); try assumption; rewrite M9; reflexivity).
+      apply (Fin false); cbn [restore_locals attrs strm]; try assumption; rewrite M9; reflexivity).
   - specialize (Main true eq_refl). cbn zeta in Main.
     destruct (exec fuel read_header_prog _) as [sx ox]. destruct Main as [Ox Main]. subst ox.
-    destruct (exec fuel map_blocks_prog sx) as [sy oy]. destruct (map_blocks f hm) as [f' h'].
+    destruct (exec fuel map_blocks_prog (restore_locals sx lo)) as [sy oy]. destruct (map_blocks f hm) as [f' h'].
     destruct Main as [M1 [M2 [M3 [M4 [M5 [M6 [M7 [M8 [M9 [M10 M11]]]]]]]]]].
     destruct M2 as [M2|M2]; subst oy; (split; [exact M1|]; split; [left; reflexivity|];
-      apply (Fin true); try assumption; rewrite M9; reflexivity).
+      apply (Fin true); cbn [restore_locals attrs strm]; try assumption; rewrite M9; reflexivity).
 Qed.
 
 (* ================= the other spellings: h[k], h[k] = v, with h: ================= *)
 Transparent read_header_prog map_blocks_prog.
 Opaque get_prog put_prog open_prog close_prog.
+
+Lemma rep_restore s h l : Rep s h -> Rep (restore_locals s l) h.
+Proof. intros [A B C D E F]. constructor; assumption. Qed.
 
 Theorem getitem_code fuel s h k :
   Rep s h -> lookup_env (locals s) "key" = Some (VBytes k) ->
@@ -574,7 +577,7 @@ Proof.
   destruct (exec fuel get_prog s) as [s1 o1]. destruct G as [G1 [G2 [G3 [G4 G5]]]].
   assert (o1 <> ONormal /\ o1 <> OBreak) as [N1 N2].
   { rewrite G5. unfold get. destruct (closed h); [|destruct (lookup (toc h) k)]; unfold out_of_res; split; discriminate. }
-  destruct o1; try contradiction; repeat split; assumption.
+  destruct o1; try contradiction; cbn [restore_locals file attrs strm]; repeat split; assumption.
 Qed.
 
 Lemma put_result_kind f h k v : let '(_, _, r) := put f h k v in r = ROk \/ exists e, r = RErr e.
@@ -599,7 +602,7 @@ Proof.
   pose proof (put_result_kind (file s) h k v) as K.
   destruct (exec fuel put_prog s0) as [s1 o1]. destruct (put (file s) h k v) as [[f' h'] r].
   destruct P as [P1 [P2 P3]]. subst o1.
-  destruct K as [K|[e K]]; subst r; [|destruct e]; cbn [out_of_res]; (split; [exact P1|split; [exact P2|reflexivity]]).
+  destruct K as [K|[e K]]; subst r; [|destruct e]; cbn [out_of_res]; (split; [exact P1|split; [apply rep_restore; exact P2|reflexivity]]).
 Qed.
 
 Theorem exit_code fuel s h :
@@ -608,7 +611,7 @@ Theorem exit_code fuel s h :
   file s' = file s /\ Rep s' (close_ h) /\ o = ONormal.
 Proof.
   intros R M. pose proof (close_code fuel s h R M) as C. unfold exit_prog. cbn [exec].
-  destruct (exec fuel close_prog s) as [s1 o1]. destruct C as [C1 [C2 [C3 C4]]]. subst o1. split; [exact C1|split; [exact C2|reflexivity]].
+  destruct (exec fuel close_prog s) as [s1 o1]. destruct C as [C1 [C2 [C3 C4]]]. subst o1. split; [exact C1|split; [apply rep_restore; exact C2|reflexivity]].
 Qed.
 
 (* `with h:` on a closed handle object whose mode attribute is r or a: opens it exactly as open(mode) would, and hands back the object *)
@@ -633,7 +636,7 @@ Proof.
   pose proof (open_code fuel s0 h m h1 h2 b0 rest Hfuel Hf L1 L2 L0 At Al Ae Ac As An Ain Lm) as O.
   change (file s0) with (file s) in O.
   destruct (exec fuel open_prog s0) as [s1 o1]. destruct (open_ (file s) h m) as [f' h'].
-  destruct O as [O1 [O2 O3]]. destruct O2 as [O2|O2]; subst o1; cbn [eval]; (split; [exact O1|split; [reflexivity|exact O3]]).
+  destruct O as [O1 [O2 O3]]. destruct O2 as [O2|O2]; subst o1; cbn [exec eval]; (split; [exact O1|split; [reflexivity|apply rep_restore; exact O3]]).
 Qed.
 
 Transparent get_prog put_prog open_prog close_prog read_header_prog map_blocks_prog.
